@@ -287,6 +287,11 @@ func judgeLockstep(prop string) func(sc *Scenario, rr *RunResult, env *core.Env)
 					}
 					continue
 				}
+				if m.Overflow {
+					// hypotheses were dropped earlier: this mismatch proves nothing
+					rr.Probes["model-hypothesis-overflow"]++
+					break
+				}
 				trigger := class
 				owner := ownerProp(op.Args, prop)
 				kind := "reply-mismatch"
